@@ -144,8 +144,14 @@ def run(ctx):
             P = dict(zip(names, vals))
             cp, b_ = P["contact_point"], P["baseline"]
             R = P.get("R", 5e-6)
-            kind = rng.choice(["around-contact", "deep", "all-out", "all-in", "shuffled", "ascending", "cycle",
-                               "cycle"])
+            kinds = ["around-contact", "deep", "all-out", "all-in", "shuffled", "ascending", "cycle", "all-out",
+                     "cycle"]
+            kind = kinds[v % len(kinds)]         # every kind of array for every model, in turn
+            if kind == "all-out" and P["baseline"] == 0.0:
+                # the exact-baseline clause needs a baseline that is not zero
+                vals[names.index("baseline")] = rng.uniform(-1e-9, 1e-9)
+                P = dict(zip(names, vals))
+                b_ = P["baseline"]
             if kind == "around-contact":
                 d = np.array([cp, np.nextafter(cp, 1), np.nextafter(cp, -1), cp + 1e-9, cp - 1e-9, cp - 1e-7,
                               cp + 1e-7, cp - 1e-12])
